@@ -44,6 +44,10 @@ fn main() {
                 family: String::new(),
                 max_viols: args.num("max-viols", 40) as usize,
                 sample_every: 997,
+                sampled: cfg!(miri) || args.flag("sample"),
+                lean: cfg!(miri) || args.flag("lean"),
+                quota: args.num("quota", 1),
+                strata: Default::default(),
                 crumb: args.get("crumb").and_then(|p| std::fs::OpenOptions::new().create(true).write(true).truncate(true).open(p).ok()),
             };
             props::run(&mut ctx);
